@@ -244,6 +244,8 @@ CONFIGS = [
     ('Gpartul', 'Gpartul', dict(), [('1.1.1', 'EPSG:3857', False)]),
     ('G15', 'G15', dict(meta_size=(1, 1)), [('1.1.1', 'EPSG:3857', False), ('1.3.0', 'EPSG:900913', False)]),
     ('G2/4326', 'G2', dict(srs='EPSG:4326', scale=0.001), [('1.1.1', 'EPSG:4326', False), ('1.3.0', 'EPSG:4326', True)]),
+    # degrees at a very fine resolution (2e-7 deg per pixel): coordinates need more than six decimals
+    ('G2/4326/fine', 'G2', dict(srs='EPSG:4326', scale=1e-8), [('1.1.1', 'EPSG:4326', False), ('1.3.0', 'EPSG:4326', True)]),
     # a projected reference system with north/east axis order (Gauss-Krueger): WMS 1.3.0 clients send northing first
     ('G2/31467', 'G2', dict(srs='EPSG:31467'), [('1.1.1', 'EPSG:31467', False), ('1.3.0', 'EPSG:31467', True)]),
     # the upstream speaks WMS 1.3.0: BBOX in the axis order of the CRS, I / J stay column / row
@@ -261,7 +263,7 @@ def run(ctx):
     tlc.sany(SPEC)
     nmap = 600 if thorough else 220
     ninfo = 120 if thorough else 25
-    configs = CONFIGS if thorough else [c for c in CONFIGS if c[0] in ('G2/3857', 'Gneg/buffer', 'Gpartul', 'G15', 'G2/4326', 'Grect/cov', 'Grect/4326/up130', 'G2/31467')]
+    configs = CONFIGS if thorough else [c for c in CONFIGS if c[0] in ('G2/3857', 'Gneg/buffer', 'Gpartul', 'G15', 'G2/4326', 'Grect/cov', 'Grect/4326/up130', 'G2/31467', 'G2/4326/fine')]
     for name, gname, kw, variants in configs:
         g = L.spec_grid(gname)
         srs = kw.get('srs', 'EPSG:3857')
